@@ -344,6 +344,35 @@ type c30Panic struct{ msg string }
 
 type c30Interp struct {
 	fuel int
+	// intercept, when set, models a call by contract instead of evaluating the
+	// callee's body (ok=false: evaluate normally).
+	intercept func(callee *ssa.Function, args []any) (res []any, ok bool)
+	// opaque: calls without a loaded body (and interface calls) yield c30Unknown
+	// results instead of aborting; any use of such a result that matters
+	// (arithmetic, comparison, branching) still aborts with c30Outside.
+	opaque bool
+}
+
+// struct model: a struct object is a c30Arr of its fields; c30StructPtr points
+// at the object, c30StructVal is a by-value copy (copied on load and on store).
+type c30StructPtr struct{ arr *c30Arr }
+type c30StructVal struct{ el []any }
+type c30GlobalAddr struct{ g *ssa.Global }
+
+// c30GlobalVal is "the value of package-level variable g" (assumed never
+// reassigned and, for the error sentinels it is used for, non-nil).
+type c30GlobalVal struct{ g *ssa.Global }
+type c30Unknown struct{}
+
+func c30CopyStruct(v c30StructVal) c30StructVal {
+	out := c30StructVal{el: make([]any, len(v.el))}
+	for i, e := range v.el {
+		if sv, ok := e.(c30StructVal); ok {
+			e = c30CopyStruct(sv)
+		}
+		out.el[i] = e
+	}
+	return out
 }
 
 func (s c30Slice) len() int { return s.hi - s.lo }
@@ -369,6 +398,12 @@ func c30Zero(t types.Type) any {
 			arr.el[i] = c30Zero(u.Elem())
 		}
 		return arr
+	case *types.Struct:
+		sv := c30StructVal{el: make([]any, u.NumFields())}
+		for i := range sv.el {
+			sv.el[i] = c30Zero(u.Field(i).Type())
+		}
+		return sv
 	}
 	panic(c30Outside{"zero value of " + t.String()})
 }
@@ -403,6 +438,8 @@ func (it *c30Interp) run(fn *ssa.Function, args []any, depth int) []any {
 				return constant.StringVal(x.Value)
 			}
 			panic(c30Outside{"constant " + x.String()})
+		case *ssa.Global:
+			return c30GlobalAddr{x}
 		}
 		r, ok := env[v]
 		if !ok {
@@ -443,11 +480,21 @@ func (it *c30Interp) run(fn *ssa.Function, args []any, depth int) []any {
 				case token.SUB:
 					env[x] = -asInt(get(x.X))
 				case token.MUL:
-					p, ok := get(x.X).(c30Ptr)
-					if !ok {
+					switch p := get(x.X).(type) {
+					case c30Ptr:
+						env[x] = p.arr.el[p.idx]
+						if sv, ok := env[x].(c30StructVal); ok {
+							env[x] = c30CopyStruct(sv)
+						}
+					case c30StructPtr:
+						env[x] = c30CopyStruct(c30StructVal{el: p.arr.el})
+					case c30GlobalAddr:
+						env[x] = c30GlobalVal{p.g}
+					case c30Nil:
+						panic(c30Panic{"nil pointer dereference"})
+					default:
 						panic(c30Outside{"load through " + path(x.X)})
 					}
-					env[x] = p.arr.el[p.idx]
 				default:
 					panic(c30Outside{"unary " + x.Op.String()})
 				}
@@ -463,6 +510,8 @@ func (it *c30Interp) run(fn *ssa.Function, args []any, depth int) []any {
 				t := derefType(x.Type())
 				if at, ok := t.Underlying().(*types.Array); ok {
 					env[x] = c30ArrPtr{c30Zero(at).(*c30Arr)}
+				} else if st, ok := t.Underlying().(*types.Struct); ok {
+					env[x] = c30StructPtr{&c30Arr{el: c30Zero(st).(c30StructVal).el}}
 				} else {
 					env[x] = c30Ptr{&c30Arr{el: []any{c30Zero(t)}}, 0}
 				}
@@ -492,12 +541,44 @@ func (it *c30Interp) run(fn *ssa.Function, args []any, depth int) []any {
 				default:
 					panic(c30Outside{"index of " + path(x.X)})
 				}
-			case *ssa.Store:
-				p, ok := get(x.Addr).(c30Ptr)
+			case *ssa.FieldAddr:
+				switch p := get(x.X).(type) {
+				case c30StructPtr:
+					env[x] = c30Ptr{p.arr, x.Field}
+				case c30Nil:
+					panic(c30Panic{"nil pointer dereference"})
+				default:
+					panic(c30Outside{"field address of " + path(x.X)})
+				}
+			case *ssa.Field:
+				sv, ok := get(x.X).(c30StructVal)
 				if !ok {
+					panic(c30Outside{"field of " + path(x.X)})
+				}
+				env[x] = sv.el[x.Field]
+			case *ssa.MakeInterface:
+				env[x] = get(x.X)
+			case *ssa.ChangeInterface:
+				env[x] = get(x.X)
+			case *ssa.Store:
+				val := get(x.Val)
+				if sv, ok := val.(c30StructVal); ok {
+					val = c30CopyStruct(sv)
+				}
+				switch p := get(x.Addr).(type) {
+				case c30Ptr:
+					p.arr.el[p.idx] = val
+				case c30StructPtr:
+					sv, ok := val.(c30StructVal)
+					if !ok || len(sv.el) != len(p.arr.el) {
+						panic(c30Outside{"store of a non-struct through " + path(x.Addr)})
+					}
+					copy(p.arr.el, sv.el)
+				case c30Nil:
+					panic(c30Panic{"nil pointer dereference"})
+				default:
 					panic(c30Outside{"store through " + path(x.Addr)})
 				}
-				p.arr.el[p.idx] = get(x.Val)
 			case *ssa.Slice:
 				env[x] = c30SliceOp(get(x.X), x, func(v ssa.Value) (int, bool) {
 					if v == nil {
@@ -515,10 +596,28 @@ func (it *c30Interp) run(fn *ssa.Function, args []any, depth int) []any {
 					continue
 				}
 				callee := calleeFn(x.Common())
-				if callee == nil || x.Call.IsInvoke() {
-					panic(c30Outside{"call of " + path(x.Call.Value)})
+				var res []any
+				modelled := false
+				if callee != nil && !x.Call.IsInvoke() && it.intercept != nil {
+					res, modelled = it.intercept(callee, av)
 				}
-				res := it.run(callee, av, depth+1)
+				if !modelled && (callee == nil || x.Call.IsInvoke() || callee.Blocks == nil) {
+					if !it.opaque {
+						panic(c30Outside{"call of " + path(x.Call.Value)})
+					}
+					n := x.Call.Signature().Results().Len()
+					res = make([]any, n)
+					for i := range res {
+						res[i] = c30Unknown{}
+					}
+					modelled = true
+					if n == 0 {
+						continue
+					}
+				}
+				if !modelled {
+					res = it.run(callee, av, depth+1)
+				}
 				if len(res) == 1 {
 					env[x] = res[0]
 				} else {
@@ -531,7 +630,11 @@ func (it *c30Interp) run(fn *ssa.Function, args []any, depth int) []any {
 				}
 				env[x] = tup[x.Index]
 			case *ssa.If:
-				if get(x.Cond).(bool) {
+				cv, isBool := get(x.Cond).(bool)
+				if !isBool {
+					panic(c30Outside{"branch on a value the evaluator does not know: " + path(x.Cond)})
+				}
+				if cv {
 					next = b.Succs[0]
 				} else {
 					next = b.Succs[1]
@@ -602,6 +705,38 @@ func c30BinOp(op token.Token, a, b any) any {
 			return x == y
 		case token.NEQ:
 			return x != y
+		}
+	case string:
+		y, ok := b.(string)
+		if !ok {
+			break
+		}
+		switch op {
+		case token.ADD:
+			return x + y
+		case token.EQL:
+			return x == y
+		case token.NEQ:
+			return x != y
+		case token.LSS:
+			return x < y
+		case token.LEQ:
+			return x <= y
+		case token.GTR:
+			return x > y
+		case token.GEQ:
+			return x >= y
+		}
+	case c30Nil, c30StructPtr, c30GlobalVal:
+		// identity comparison of pointers / interface values holding them
+		switch b.(type) {
+		case c30Nil, c30StructPtr, c30GlobalVal:
+			switch op {
+			case token.EQL:
+				return a == b
+			case token.NEQ:
+				return a != b
+			}
 		}
 	case c30Slice:
 		y, ok := b.(c30Slice)
